@@ -176,6 +176,15 @@ impl<'g, 's> ParserGenerator<'g, 's> {
                 ))
             })?;
         let parser_name = to_pascal_case(file_name);
+        // The names of the generated modules and types are derived from the
+        // name of the grammar file.
+        for name in [format!("{file_name}_actions"), format!("{parser_name}Parser")] {
+            if syn::parse_str::<syn::Ident>(&name).is_err() {
+                return Err(Error::Error(format!(
+                    "Cannot use the grammar file name '{file_name}': '{name}' is not a valid Rust identifier."
+                )));
+            }
+        }
         let root_symbol = format_ident!("{}", grammar.symbol_name(grammar.start_index));
         let parser = format_ident!("{}Parser", parser_name);
         let layout_parser = format_ident!("{}LayoutParser", parser_name);
